@@ -473,6 +473,10 @@ def suite_strings(rng, n, stats):
     return cases
 
 
+# generate inputs on which the BODY of an entry point raises (non-string join values, '_id' column clash)
+BODY_ERRORS = _os.environ.get('SSJ_GEN_BODY_ERRORS', '0') == '1'
+
+
 def gen_join_frames(rng, ts, stats, missing=None, big=False, str_dtype=None):
     if str_dtype is None:
         str_dtype = rng.random() < 0.15
@@ -481,6 +485,12 @@ def gen_join_frames(rng, ts, stats, missing=None, big=False, str_dtype=None):
     mp = rng.choice([0.0, 0.0, 0.2, 0.5]) if missing is None else missing
     allv = gen_strings_for(rng, ts, nl + nr, big=big, missing_p=mp)
     lv, rv = allv[:nl], allv[nl:]
+    if BODY_ERRORS and not str_dtype and rng.random() < 0.04:
+        # a present join value that is not a string (object column): the tokenizer raises TypeError inside the body
+        side = lv if (rng.random() < 0.5 and lv) else rv
+        if side:
+            side[rng.randrange(len(side))] = rng.choice([5, 2.5, True, 0])
+            stats.hit('frames.nonstring_value')
     if rng.random() < 0.03:
         lv = [None] * nl
     if rng.random() < 0.03:
@@ -553,6 +563,11 @@ def gen_join_case(rng, stats, which=None, n_jobs_choices=(1, 1, 1, 2, 3, -1, 50)
           'out_sim_score': rng.random() < 0.7, 'n_jobs': rng.choice(n_jobs_choices)}
     if rng.random() < 0.2:
         kw['l_out_prefix'], kw['r_out_prefix'] = 'left.', 'R_'
+    elif BODY_ERRORS and rng.random() < 0.05:
+        # output column names that collide: '_' + 'id' = '_id' makes the final insert('_id') raise ValueError;
+        # equal names on both sides are accepted by pandas
+        kw['l_out_prefix'], kw['r_out_prefix'] = rng.choice([('_', 'r_'), ('l_', '_'), ('', ''), ('p_', 'p_')])
+        stats.hit('join.prefix_clash.%s|%s' % (kw['l_out_prefix'], kw['r_out_prefix']))
     if which not in ('overlap', 'edit_distance'):
         kw['allow_empty'] = rng.random() < 0.6
     stats.hit('join.which.' + which)
